@@ -69,7 +69,6 @@ def answerJson : Answer → Json
 def bresultJson : BResult → Json
   | .none => Json.mkObj [("none", Json.bool true)]
   | .path q p => Json.mkObj [("value", Json.str (ratStr q)), ("path", strArr p)]
-  | .keyError => Json.mkObj [("raise", Json.str "KeyError")]
   | .stuck => Json.mkObj [("stuck", Json.bool true)]
 
 def handleC17 (op : String) (j : Json) : Option (Except String Json) :=
@@ -113,7 +112,6 @@ def handleC17 (op : String) (j : Json) : Option (Except String Json) :=
     | .done r => return Json.mkObj [("paths", Json.arr (r.paths.map fun p => strArr p.1).toArray),
                                     ("weights", strArr (r.paths.map fun p => ratStr p.2)),
                                     ("residual", Json.arr (g.edges.map fun e => c17EdgeRatJson (e, r.residual e)).toArray)]
-    | .keyError => return Json.mkObj [("raise", Json.str "KeyError")]
     | .stuck => return Json.mkObj [("stuck", Json.bool true)]
   | "antichain" => some do
     let g ← parseGraph j
